@@ -12,6 +12,8 @@ CONSTANTS
   NoEvent = {3}
   Big = {2}
   SlotRep <- MCSlotRep2
+  OCells = {}
+  OKeys = {}
   Forms = {"bad"}
 INVARIANTS TypeOK Conservation OnePlace WellFormed EventsOnce IdleClean
 PROPERTIES DestroyedForever OnlyCommitChangesCommitted
